@@ -16,7 +16,7 @@ func isIntrinsic(name string) bool {
 		return true
 	}
 	switch name {
-	case "vAssume", "vAssert", "vReach", "vB2I", "vHash", "vCrash", "vCatchCrash", "vParam", "vChoose", "vRegion", "vNote", "vIsSym", "vHang":
+	case "vAssume", "vAssert", "vReach", "vB2I", "vHash", "vCrash", "vCatchCrash", "vParam", "vChoose", "vRegion", "vNote", "vIsSym", "vHang", "vNative":
 		return true
 	}
 	return false
@@ -108,6 +108,8 @@ func callIntrinsic(fr *frame, fn *ssa.Function, args []value) value {
 		return nil
 	case "vIsSym":
 		return containsSym(args[0])
+	case "vNative":
+		return false
 	case "vHang":
 		// the harness detected that the code under test would block for ever
 		panic(targetPanic{iface{t: fr.i.runtimeErrorString, v: "VERIF: hang: " + asStr(args[0])}})
@@ -272,29 +274,6 @@ func FuncsSeen(m map[string]int) string {
 		fmt.Fprintf(&b, "  %s x%d\n", k, m[k])
 	}
 	return b.String()
-}
-
-func registerFmtModels(i *interpreter) {
-	errorsNew := i.prog.ImportedPackage("errors").Func("New")
-	mkErr := func(fr *frame, msg string) value {
-		return call(i, fr, token.NoPos, errorsNew, []value{msg})
-	}
-	render := func(args []value) string {
-		format := asStr(args[0])
-		var b strings.Builder
-		b.WriteString(format)
-		if len(args) > 1 {
-			if rest, ok := args[1].([]value); ok {
-				for _, a := range rest {
-					b.WriteString(" | ")
-					b.WriteString(toString(a))
-				}
-			}
-		}
-		return b.String()
-	}
-	externals["fmt.Errorf"] = func(fr *frame, args []value) value { return mkErr(fr, render(args)) }
-	externals["fmt.Sprintf"] = func(fr *frame, args []value) value { return render(args) }
 }
 
 func init() {
